@@ -169,7 +169,8 @@ struct Node {
     Ctx &c; RegP p; Wire *in, *out; WireSrc src; WireSnk snk; Ledger led; BlockAllocator ba; Backend be;
     bool serial; int mt;
     RPMaybeFrame mf;   // one object reused for every iteration of the serve loop, as an application would
-    Node(Ctx &ctx, Wire *i, Wire *o, bool ser, int memtype, size_t block, bool slab, bool src_octet, bool snk_octet) : c(ctx), in(i), out(o), serial(ser), mt(memtype) {
+    bool nomem = false;   // no memory is ever attached: the instance keeps what regp_init() / RP_NEW_INSTANCE give it (16-bit semantics, every access unmapped)
+    Node(Ctx &ctx, Wire *i, Wire *o, bool ser, int memtype, size_t block, bool slab, bool src_octet, bool snk_octet, bool no_memory = false) : c(ctx), in(i), out(o), serial(ser), mt(memtype), nomem(no_memory && memtype == 16) {
         src.c = &ctx; src.w = i; src.octet = src_octet; snk.c = &ctx; snk.w = o; snk.octet = snk_octet;
         src.lend_win = g_lend; if (g_lend) COUNT("probe.channel_source_lends_its_window");
         led.c = &ctx; led.bs = block; led.slab = slab; ba = led.make();
@@ -181,11 +182,11 @@ struct Node {
     // (re-)apply the effective configuration, optionally after a history of other settings (instances get re-configured;
     // only the last call of each kind counts)
     void reconfigure(unsigned history) {
-        if (history & 1) regp_use_memory8(&p, be_r8, be_w8);
-        if (history & 2) regp_use_memory16(&p, be_r16, be_w16);
+        if ((history & 1) && !nomem) regp_use_memory8(&p, be_r8, be_w8);
+        if ((history & 2) && !nomem) regp_use_memory16(&p, be_r16, be_w16);
         if (history & 4) regp_use_channel(&p, serial ? RP_EP_TCP : RP_EP_SERIAL, source_empty, sink_null);
         if (history & 8) regp_use_allocator(&p, &rp_default_allocator);
-        if (mt == 16) regp_use_memory16(&p, be_r16, be_w16); else regp_use_memory8(&p, be_r8, be_w8);
+        if (nomem) COUNT("probe.instance_without_memory_attached"); else if (mt == 16) regp_use_memory16(&p, be_r16, be_w16); else regp_use_memory8(&p, be_r8, be_w8);
         regp_use_channel(&p, serial ? RP_EP_SERIAL : RP_EP_TCP, src.make(), snk.make());
         ba.driver = &led;
         regp_use_allocator(&p, &ba);
@@ -313,9 +314,9 @@ struct RegpHarness : Harness {
     std::vector<std::string> probes(const std::string &p) const override {
         std::vector<std::string> v;
         if (p == "C06") { for (int k = 0; k < 12; ++k) { v.push_back("verdict_read_" + std::to_string(k)); v.push_back("verdict_write_" + std::to_string(k)); }
-            for (const char *s : {"read_of_64k_octets_or_more", "pipelined_3_or_more", "sequence_wrap", "word_size_mismatch", "response_ignored", "meta_ignored", "mem8", "mem16", "serial", "tcp", "zero_block_size", "request_from_real_client", "register_table_verdict_mapped", "reception_failure_inside_session", "block_recycled_with_stale_content", "reply_received_and_ignored_by_client", "read_at_or_near_capacity"}) v.push_back(s); }
+            for (const char *s : {"instance_without_memory_attached", "read_of_64k_octets_or_more", "pipelined_3_or_more", "sequence_wrap", "word_size_mismatch", "response_ignored", "meta_ignored", "mem8", "mem16", "serial", "tcp", "zero_block_size", "request_from_real_client", "register_table_verdict_mapped", "reception_failure_inside_session", "block_recycled_with_stale_content", "reply_received_and_ignored_by_client", "read_at_or_near_capacity"}) v.push_back(s); }
         else if (p == "C07") for (const char *s : {"frame_of_64k_octets_or_more", "damage_beyond_64k_words", "idle_turn_after_a_frame", "reply_could_not_be_sent", "flip1", "flip2", "burst", "truncate", "extend", "header_word_flip", "class_header_encoding", "class_header_crc", "class_payload_size", "class_payload_crc", "raw_accept", "raw_tcp", "option_plcrc_without_hdcrc", "odd_payload_ws16", "payload_fault_answered_with_error_response", "classified_from_fallback_buffer"}) v.push_back(s);
-        else if (p == "C08") { for (const char *s : {"payload_of_64k_octets_or_more", "emitter_sink_failed", "channel_attached_again_mid_session", "req_read8", "req_read16", "req_write8", "req_write16", "resp_ack_payload", "resp_ack_empty", "resp_meta", "payload_with_slip_control_octets", "varint_prefix_2_octets", "sequence_wrap", "roundtrip_accepted"}) v.push_back(s);
+        else if (p == "C08") { for (const char *s : {"instance_without_memory_attached", "payload_of_64k_octets_or_more", "emitter_sink_failed", "channel_attached_again_mid_session", "req_read8", "req_read16", "req_write8", "req_write16", "resp_ack_payload", "resp_ack_empty", "resp_meta", "payload_with_slip_control_octets", "varint_prefix_2_octets", "sequence_wrap", "roundtrip_accepted"}) v.push_back(s);
             for (int k = 1; k < 12; ++k) v.push_back("resp_code_" + std::to_string(k)); }
         else for (const char *s : {"frame_of_64k_octets_or_more", "reply_could_not_be_sent", "malloc_failed_underneath_ufw_malloc", "alloc_failure_with_parsable_header", "alloc_failure_without_parsable_header", "empty_frame", "short_frame", "frame_len_room_minus_1", "frame_len_room", "frame_len_room_plus_1", "rx_overflow", "read_at_limit_minus_1", "read_at_limit", "read_at_limit_plus_1", "tx_overflow", "channel_error_mid_frame", "odd_payload_ws16", "slab_allocator", "block_size_minimum", "served_after_fault", "illegal_slip_sequence_on_the_wire"}) v.push_back(s);
         return v;
@@ -402,6 +403,7 @@ struct RegpHarness : Harness {
         if (r.chance(1, 4)) p["scrub"] = r.chance(1, 2) ? 0xff : 0x00;
         if (r.chance(1, 4)) p["stock_heap"] = 1;
         if (prop == "C08") { static const int DIRT[] = {0, 0, 0xff, 0xa5, 0x01, 0x80}; p["dirt"] = DIRT[r.below(6)]; }
+        if ((prop == "C08" && mt == 16 && r.chance(1, 4)) || (prop == "C06" && mt == 16 && r.chance(1, 10))) p["nomem"] = 1;   // the emitting / serving instance never attaches memory
         if (r.chance(1, 4)) p["lend"] = (long long)(r.chance(1, 3) ? r.range(1, 6) : (r.chance(1, 2) ? r.range(7, 40) : r.range(41, 400)));   // the channel sources implement the getbuffer extension
         const size_t room = (size_t)block - sizeof(RPFrame);
         p["seq0"] = (long long)(r.chance(1, 3) ? 0xfff0 + r.below(16) : r.below(65536));
@@ -572,7 +574,7 @@ struct RegpHarness : Harness {
 
     // judge one served frame whose raw content is known; returns false after a violation.
     // 'strict_reply' = compare the reply octet-for-octet with the reference encoding
-    struct Ctxt { const Cfg *cf; int verdict = 0; uint32_t vaddr = 0; bool alloc_failed = false; };
+    struct Ctxt { const Cfg *cf; int verdict = 0; uint32_t vaddr = 0; bool alloc_failed = false; bool voidmem = false; };
     bool judge(Ctx &c, Node &N, const Bytes &raw, const Served &S, const Ctxt &x, const std::string &site) {
         const Cfg &cf = *x.cf;
         auto F = [&](const std::string &rule, const char *fmt, ...) __attribute__((format(printf, 3, 4))) {
@@ -625,6 +627,9 @@ struct RegpHarness : Harness {
                 const size_t ws = cf.mt == 16 ? 2 : 1;
                 if (f.type == T_RREQ && (uint64_t)f.bsize * ws > room) {   // can never fit
                     want.push_back(encode(response_for(f, RC_ETXOVERFLOW, (uint32_t)room, Bytes(), cf.serial, cf.mt))); break;
+                }
+                if (x.voidmem) {   // no memory attached: the documented default backend answers every access 'unmapped' at the address asked for (its calls cannot be observed)
+                    want.push_back(encode(response_for(f, RC_EUNMAPPED, f.addr, Bytes(), cf.serial, cf.mt))); break;
                 }
                 want_calls = 1;
                 if (S.be_calls == 1 && S.calls[0].write == false) read_image = S.calls[0].data;
@@ -681,7 +686,8 @@ struct RegpHarness : Harness {
         Cfg cf = cfg_of(plan);
         if (cf.block < sizeof(RPFrame) + 41) cf.block = sizeof(RPFrame) + 41;   // receive/transmit boundary cases belong to C09
         Wire c2s, s2c, dummy;
-        Node srv(c, &c2s, &s2c, cf.serial, cf.mt, cf.block, cf.slab, cf.so, cf.ko);
+        const bool voidmem = plan.geti("nomem") != 0 && cf.mt == 16;
+        Node srv(c, &c2s, &s2c, cf.serial, cf.mt, cf.block, cf.slab, cf.so, cf.ko, voidmem);
         srv.led.recycle = cf.recycle; srv.reconfigure(cf.confhist);
         Node cli(c, &s2c, &c2s, cf.serial, cf.mt, cf.block + 64, false, cf.so, cf.ko);   // the client emits requests and receives the replies
         (void)dummy; cli.reconfigure(cf.confhist >> 1);
@@ -700,7 +706,8 @@ struct RegpHarness : Harness {
             if (v == V_ACCEPT && f.is_request()) srv.be.verdicts.push_back({pd.verdict, pd.vaddr});
             Served S = serve(srv, f.payload.size());
             c.ops_done++;
-            Ctxt x; x.cf = &cf; x.verdict = pd.verdict; x.vaddr = pd.vaddr;
+            if (voidmem) { pd.verdict = RC_EUNMAPPED; pd.vaddr = f.addr; }
+            Ctxt x; x.cf = &cf; x.verdict = pd.verdict; x.vaddr = pd.vaddr; x.voidmem = voidmem;
             if (!judge(c, srv, pd.raw, S, x, "served")) return false;
             // the requesting side receives and processes every reply: accepted by its receiver, and ignored (no access, nothing emitted)
             while (s2c.rpos < s2c.data.size()) {
@@ -905,7 +912,7 @@ struct RegpHarness : Harness {
         Wire a2b, nil, b2a;
         size_t block = 70000;
         { const Json &ops0 = plan.get("ops"); for (size_t i = 0; i < ops0.size(); ++i) if (ops0.at(i).has("bigpl")) block = 300000; }
-        Node A(c, &nil, &a2b, cf.serial, cf.mt, 256, false, false, cf.ko);             // emitter
+        Node A(c, &nil, &a2b, cf.serial, cf.mt, 256, false, false, cf.ko, plan.geti("nomem") != 0);   // emitter (nomem: a node that only ever emits need not attach memory)
         Node B(c, &a2b, &b2a, cf.serial, cf.mt, block, cf.slab, cf.so, false);          // peer receiver
         A.reconfigure(cf.confhist); B.reconfigure(cf.confhist >> 2);
         load_frag(B.src, plan);
